@@ -25,11 +25,11 @@ type c09Case struct {
 	Lines       [][]byte `json:"lines"` // valid documents (no raw LF) or blank / white-space-only lines
 	CRLF        []bool   `json:"crlf"`
 	FinalNL     bool     `json:"final_nl"`
-	Frags       []int    `json:"frags"`    // sizes of successive Read results, cycled; 0 = everything that is left
-	ResCap      int      `json:"res_cap"`  // capacity of the result channel
-	Reuse       int      `json:"reuse"`    // 0 nil channel, 1 recycle every value, 2 recycle every other value
-	Procs       int      `json:"procs"`    // GOMAXPROCS
-	ErrAt       int      `json:"err_at"`   // -1: none; else the reader fails after delivering this many bytes
+	Frags       []int    `json:"frags"`   // sizes of successive Read results, cycled; 0 = everything that is left
+	ResCap      int      `json:"res_cap"` // capacity of the result channel
+	Reuse       int      `json:"reuse"`   // 0 nil channel, 1 recycle every value, 2 recycle every other value
+	Procs       int      `json:"procs"`   // GOMAXPROCS
+	ErrAt       int      `json:"err_at"`  // -1: none; else the reader fails after delivering this many bytes
 	EOFWithData bool     `json:"eof_with_data"`
 	ForceOrder  bool     `json:"force_order"` // chunk k may not deliver before chunk k+1 has been parsed
 	SlowConsume bool     `json:"slow_consume"`
@@ -378,4 +378,45 @@ func TestC09_ReaderErrors(t *testing.T) {
 		}
 	})
 	col("C09").Completed("TestC09_ReaderErrors")
+}
+
+// TestC09_Big: streams larger than the 10 MiB chunk buffer, delivered by reads that fill it completely, so that a chunk
+// boundary falls inside a line and the line has to be completed from the next read.
+func TestC09_Big(t *testing.T) {
+	n := 1
+	if thorough() {
+		n = 3
+	}
+	for k := 0; k < n; k++ {
+		if !thorough() && envShard != 0 {
+			break
+		}
+		r := newPRNG(fmt.Sprintf("C09_Big_%d", k))
+		var lines [][]byte
+		total := 0
+		target := 11<<20 + r.intn(2<<20)
+		i := 0
+		for total < target {
+			var l []byte
+			switch r.intn(4) {
+			case 0:
+				l = []byte(`{"id":` + fmt.Sprint(i) + `,"payload":"` + string(bytes.Repeat([]byte("p"), 50+r.intn(3000))) + `"}`)
+			case 1:
+				l = []byte(`[` + fmt.Sprint(i) + `,"line\n` + fmt.Sprint(r.intn(1000)) + `",{"k":[1,2,3]}]`)
+			case 2:
+				l = []byte{}
+			default:
+				l = []byte(`{"n":` + fmt.Sprint(r.intn(1000000)) + `.5}`)
+			}
+			lines = append(lines, l)
+			total += len(l) + 1
+			i++
+		}
+		c := c09Case{Lines: lines, FinalNL: k%2 == 0, Frags: []int{0}, ResCap: 1, Reuse: k % 3, Procs: 4, ErrAt: -1, ForceOrder: k%2 == 1}
+		if k == 2 {
+			c.Frags = []int{3 << 20, 1, 9 << 20, 17}
+		}
+		c09Eval(t, c, "bigger-than-chunk-buffer")
+	}
+	col("C09").Completed("TestC09_Big")
 }
